@@ -60,22 +60,28 @@ def local_of_mut_ref(blocks, bi, op):
     return None
 
 
-def worklist_loops(body):
+def worklist_loops(body, lex=None):
+    """Loops that pop a Vec and push to / extend the same Vec. The Vec is identified by the def-use term
+    of the receiver (a local, a field of a context struct, a capture of an inlined closure: all the
+    same object)."""
+    from .rules_thompson import Sym
     blocks = body["mir"]["blocks"]
     loops, dom, preds = cfg.natural_loops(blocks)
+    if not loops:
+        return []
+    has_pop = any(name == "std::vec::Vec::pop" for _, name, _ in cfg.calls_in(blocks))
+    if not has_pop:
+        return []
+    sym = Sym(body, {}, crate=lex)
     out = []
     for h, members in sorted(loops.items()):
         pops, pushes = [], []
         for bi, name, t in cfg.calls_in(blocks, members):
             if name == "std::vec::Vec::pop":
-                w = local_of_mut_ref(blocks, bi, t["args"][0])
-                if w is not None:
-                    pops.append((bi, w))
+                pops.append((bi, sym.operand(t["args"][0])))
             elif name == "std::vec::Vec::push" or (name or "").endswith("std::iter::Extend>::extend"):
                 # `work_list.extend(successors.map(..))` queues work just like a push per element
-                w = local_of_mut_ref(blocks, bi, t["args"][0])
-                if w is not None:
-                    pushes.append((bi, w))
+                pushes.append((bi, sym.operand(t["args"][0])))
         for bi, w in pops:
             # the pop must be in the header segment of this loop (not of an inner loop)
             inner = [h2 for h2, m2 in loops.items() if h2 != h and h2 in members and bi in m2]
@@ -84,7 +90,7 @@ def worklist_loops(body):
             ps = [p for p, w2 in pushes if w2 == w]
             if ps:
                 out.append({"head": h, "members": members, "pop": bi, "W": w, "pushes": ps,
-                            "loops": loops, "dom": dom})
+                            "loops": loops, "dom": dom, "lex": lex})
     return out
 
 
@@ -242,13 +248,27 @@ def idiom_c(body, wl):
         return False, "no map entry / lookup in the loop", None
     heads = set(wl["loops"])
     rows = {}
+    # shape of a work item: a (state, flag) tuple, or a struct with one bool field
+    elem_ty = None
+    m = re.match(r"^std::option::Option<(.+)>$", body["mir"]["locals"][blocks[wl["pop"]]["term"]["dest"]["l"]])
+    if m:
+        elem_ty = m.group(1)
+    adt = wl.get("lex").adt(elem_ty) if (wl.get("lex") is not None and elem_ty and not elem_ty.startswith("(")) else None
+
+    def popped_value(new):
+        if adt is not None and len(adt["variants"]) == 1:
+            v = adt["variants"][0]
+            fields = tuple((f["name"], ("int", new, "bool") if f["ty"] == "bool" else ("sym", f["name"]))
+                           for f in v["fields"])
+            return ("adt", elem_ty, v["name"], 0, fields)
+        return ("tuple", (("sym", "state"), ("int", new, "bool")))
     for (kind, old, new), (exp_proceed, exp_store) in sorted(C_TABLE.items(), key=repr):
         stores = []
 
         def models(eng, st, c, kind=kind, old=old, new=new, stores=stores):
             n = c.callee or ""
             if n == "std::vec::Vec::pop":
-                return [(st, some(("tuple", (("sym", "state"), ("int", new, "bool")))))]
+                return [(st, some(popped_value(new)))]
             if n == "std::collections::HashMap::entry":
                 return [(st, ("mapentry", kind))]
             if n == "std::collections::HashMap::get":
@@ -371,10 +391,11 @@ EXPECTED_WORKLISTS = {"nfa::NFA::compute_state_closure", "nfa_to_dfa::nfa_to_dfa
 def check_rwl(ctx, prog):
     lex = prog.crate(LEX)
     found = {}
-    for b in lex.bodies:
-        if b["from_expansion"]:
-            continue
-        for wl in worklist_loops(b):
+    from .inline import is_anchor
+    for b in lex.ibodies():
+        if b["from_expansion"] or not is_anchor(norm_path(b["path"])):
+            continue            # helpers are analysed where they are inlined
+        for wl in worklist_loops(b, lex):
             name = norm_path(b["path"])
             found.setdefault(name, []).append(wl)
             oka, wa = idiom_a(b, wl)
@@ -399,7 +420,7 @@ def check_rwl(ctx, prog):
     # update_backtracks specifically must be monotone (C): flags = OR over all visits
     ub = lex.body("dfa::backtrack::update_backtracks")
     if ub is not None:
-        for wl in worklist_loops(ub):
+        for wl in worklist_loops(ub, lex):
             okc, wc, rows = idiom_c(ub, wl)
             oka, wa = idiom_a(ub, wl)
             ctx.ob("R-WL", "update_backtracks: a state's backtrack flag is only ever raised "
@@ -639,25 +660,80 @@ def local_calls(body, prefix="ast::parse_"):
             if callee and callee.startswith(prefix)]
 
 
+def regex_nodes_built(body):
+    out = set()
+    for bb in body["mir"]["blocks"]:
+        if bb["cleanup"]:
+            continue
+        for st in bb["st"]:
+            rv = st.get("rv")
+            if rv and rv["k"] == "agg" and (rv["kind"] or {}).get("adt") == "ast::Regex":
+                out.add(rv["kind"]["variant"])
+    return out
+
+
+def discover_parser_levels(lex):
+    """The five precedence levels of the regex parser, found by the nodes they build (so that renaming
+    them does not matter): {level key: function path}. Level keys are the historical names."""
+    want = {"parse_regex_0": {"Or"}, "parse_regex_1": {"Concat"},
+            "parse_regex_2": {"ZeroOrMore", "ZeroOrOne", "OneOrMore"}, "parse_regex_3": {"Diff"},
+            "parse_regex_4": {"Char", "String"}}
+    found = {}
+    for b in lex.bodies:
+        name = norm_path(b["path"])
+        if not name.startswith("ast::") or "{closure" in name or name.startswith("<") or b["from_expansion"]:
+            continue
+        built = regex_nodes_built(b)
+        for k, w in want.items():
+            if built and w <= built and not (built - w - ({"Builtin", "Var", "EndOfInput", "CharSet", "Any"}
+                                                         if k == "parse_regex_4" else set())):
+                found.setdefault(k, []).append(name)
+    return {k: v[0] for k, v in found.items() if len(v) == 1}
+
+
 def check_rparse(ctx, prog):
+    from . import inline as _inl
     lex = prog.crate(LEX)
-    fn = {n: lex.body("ast::" + n) for n in
-          ("parse_regex", "parse_regex_0", "parse_regex_1", "parse_regex_2", "parse_regex_3",
-           "parse_regex_4", "parse_regex_ctx", "parse_charset")}
-    for n, b in fn.items():
-        ctx.ob("R-PARSE", "parser function %s found" % n, b is not None, key="R-PARSE:anchor:" + n)
-    if any(b is None for b in fn.values()):
+    levels = discover_parser_levels(lex)
+    level_names = set(levels.values())
+    # the entry (`parse_regex`: what a parenthesised group recurses into) is what the atom level calls
+    # among the functions that lead to the alternation level; charset parser: the other callee
+    missing = [k for k in ("parse_regex_0", "parse_regex_1", "parse_regex_2", "parse_regex_3", "parse_regex_4")
+               if k not in levels]
+    if missing:
+        ctx.notes.append("R-PARSE: the regex parser is not in the recognised layered shape (no single function "
+                         "builds the nodes of level(s) %s); precedence and associativity are decided by the "
+                         "prec / ops witness families only" % ", ".join(missing))
         return
-    # layering
-    layers = [("parse_regex", {"ast::parse_regex_0"}), ("parse_regex_0", {"ast::parse_regex_1"}),
-              ("parse_regex_1", {"ast::parse_regex_2"}), ("parse_regex_2", {"ast::parse_regex_3"}),
-              ("parse_regex_3", {"ast::parse_regex_4"}),
-              ("parse_regex_4", {"ast::parse_regex", "ast::parse_charset"})]
-    for n, allowed in layers:
-        got = {c for c, _ in local_calls(fn[n])}
-        ctx.ob("R-PARSE", "%s parses its operands only with %s" % (n, sorted(allowed)),
-               got == allowed, key="R-PARSE:layer:" + n, where=fn[n]["span"],
-               detail={"calls": sorted(got)})
+
+    def is_level_or_anchor(n):
+        return n in level_names or n in ("ast::parse_regex", "ast::parse_regex_ctx", "ast::parse_charset") \
+            or _inl.is_anchor(n)
+
+    def level_body(path):
+        return _inl.inline_body(lex, lex.raw_body(path), anchor_pred=is_level_or_anchor)[0]
+    fn = {k: level_body(p) for k, p in levels.items()}
+    for opt in ("parse_regex", "parse_regex_ctx", "parse_charset"):
+        rb = lex.raw_body("ast::" + opt)
+        if rb is not None:
+            fn[opt] = level_body("ast::" + opt)
+    disp = {k: levels[k].split("::")[-1] for k in levels}
+    # layering: each level parses its operands with the next level only
+    order = ["parse_regex_0", "parse_regex_1", "parse_regex_2", "parse_regex_3", "parse_regex_4"]
+    for i, k in enumerate(order[:-1]):
+        got = {c for c, _ in local_calls(fn[k], prefix="ast::") if c in level_names}
+        allowed = {levels[order[i + 1]]}
+        ctx.ob("R-PARSE", "%s parses its operands only with %s" % (disp[k], sorted(x.split("::")[-1] for x in allowed)),
+               got == allowed, key="R-PARSE:layer:" + k, where=fn[k]["span"], detail={"calls": sorted(got)})
+    got4 = {c for c, _ in local_calls(fn["parse_regex_4"], prefix="ast::")}
+    lower = {levels[k] for k in order[1:]}
+    ctx.ob("R-PARSE", "%s re-enters the grammar only at the top (a parenthesised group is a whole regex)" % disp["parse_regex_4"],
+           not (got4 & lower), key="R-PARSE:layer:parse_regex_4", where=fn["parse_regex_4"]["span"],
+           detail={"calls": sorted(got4)})
+    if "parse_regex" in fn:
+        got = {c for c, _ in local_calls(fn["parse_regex"], prefix="ast::") if c in level_names}
+        ctx.ob("R-PARSE", "parse_regex starts at the alternation level", got == {levels["parse_regex_0"]},
+               key="R-PARSE:layer:parse_regex", where=fn["parse_regex"]["span"], detail={"calls": sorted(got)})
     # an atom is one token (or one bracketed / parenthesised group): parse_regex_4 consumes each kind
     # of literal at one place and has no loop of its own, so that a postfix operator that follows
     # applies to that atom alone
@@ -712,9 +788,10 @@ def check_rparse(ctx, prog):
                               "concatenation early: `'a' _` would stop after 'a'"})
     ctx.floor("peek set of the concatenation loop", len(p1), 6)
     # right context is parsed after the regex, introduced by `>`
-    pc = {t for t, _ in peeked_tokens(fn["parse_regex_ctx"])}
-    ctx.ob("R-PARSE", "right context is introduced by `>`", pc == {"Gt"}, key="R-PARSE:ctx",
-           where=fn["parse_regex_ctx"]["span"], detail=sorted(pc))
+    if "parse_regex_ctx" in fn:
+        pc = {t for t, _ in peeked_tokens(fn["parse_regex_ctx"])}
+        ctx.ob("R-PARSE", "right context is introduced by `>`", pc == {"Gt"}, key="R-PARSE:ctx",
+               where=fn["parse_regex_ctx"]["span"], detail=sorted(pc))
     ctx.sample({"parse_regex_1 peeks": sorted(p1), "parse_regex_4 accepts": sorted(p4)})
 
 
@@ -801,48 +878,57 @@ def left_assoc(body, commutative=False):
 
 
 # ---------------------------------------------------------------------------------- R-SCOPE
-def check_rscope(ctx, prog):
-    """Rule sets get a copy of the top-level bindings; the top-level map itself only ever receives
-    top-level `let`s."""
-    from .rules_thompson import Sym, show as show_term, strip_clone, _is_call
-    lex = prog.crate(LEX)
+def scope_analysis(lex):
+    """In `lexer` with its helpers inlined: the top-level bindings map B (the map every rule's
+    `NFA::add_regex` call gets, directly or as a clone), and the add_regex calls."""
+    from .rules_thompson import Sym, strip_clone
     b = lex.body("lexer")
-    if not ctx.ob("R-SCOPE", "proc macro entry `lexer` found", b is not None, key="R-SCOPE:anchor"):
-        return
+    if b is None:
+        return None
     sym = Sym(b, {1: "input"}, crate=lex)
     calls = sym.all_calls()
-    crs_calls = [x for x in calls if x[1] == "compile_rule_set"]
-    tops = set()
-    n = 0
-    for bi, c, a in crs_calls:
-        n += 1
-        arg = a[1] if len(a) > 1 else ("nothing",)
-        is_clone = _is_call(arg, "Clone>::clone") or _is_call(arg, "::clone")
-        ctx.ob("R-SCOPE", "compile_rule_set receives a clone of the top-level bindings", is_clone,
-               key="R-SCOPE:clone:%d" % n, where=sym.blocks[bi].get("span"),
-               detail={"argument": show_term(arg)[:200],
-                       "meaning": "a rule set's `let`s must not become visible in later rule sets"})
-        if is_clone:
-            tops.add(strip_clone(arg))
-    ctx.floor("calls of compile_rule_set", n, 2)
-    if not ctx.ob("R-SCOPE", "all rule sets are compiled against the same top-level bindings", len(tops) == 1,
-                  key="R-SCOPE:bindings", where=b["span"], detail=[show_term(x)[:120] for x in tops]):
+    regs = [(bi, a) for bi, c, a in calls if c == "nfa::NFA::add_regex" and len(a) >= 3]
+    roots = {strip_clone(a[1]) for bi, a in regs}
+    return {"body": b, "sym": sym, "calls": calls, "regs": regs, "roots": roots}
+
+
+def check_rscope(ctx, prog):
+    """Rules of a rule set are compiled against a copy of the top-level bindings; the top-level map
+    itself only ever receives top-level `let`s."""
+    from .rules_thompson import show as show_term
+    lex = prog.crate(LEX)
+    sa = scope_analysis(lex)
+    if not ctx.ob("R-SCOPE", "proc macro entry `lexer` found", sa is not None, key="R-SCOPE:anchor"):
         return
-    B = next(iter(tops))
-    crs = lex.body("compile_rule_set")
-    if crs is not None:
-        ok = crs["sig_in"][1].startswith("std::collections::HashMap<") if len(crs["sig_in"]) > 1 else False
-        ctx.ob("R-SCOPE", "compile_rule_set takes the bindings by value", ok, key="R-SCOPE:byvalue",
-               where=crs["span"], detail=crs["sig_in"])
+    b, sym, calls, regs, roots = sa["body"], sa["sym"], sa["calls"], sa["regs"], sa["roots"]
+    ctx.floor("places where a rule's regex is added to an automaton (NFA::add_regex, helpers inlined)", len(regs), 2)
+    if not ctx.ob("R-SCOPE", "all rules are compiled against one top-level bindings map or a clone of it",
+                  len(roots) == 1, key="R-SCOPE:bindings", where=b["span"],
+                  detail=[show_term(x)[:160] for x in roots]):
+        return
+    B = next(iter(roots))
+    n_rs = n_top = 0
+    for bi, a in regs:
+        in_rule_set = term_has(a[2], lambda y: y == ("as", "RuleSet"))
+        if in_rule_set:
+            n_rs += 1
+            ctx.ob("R-SCOPE", "a rule of a rule set is compiled against a clone of the top-level bindings",
+                   a[1] != B, key="R-SCOPE:clone", where=sym.blocks[bi].get("span"),
+                   detail={"bindings": show_term(a[1])[:200],
+                           "meaning": "a rule set's `let`s must not become visible in later rule sets"})
+        else:
+            n_top += 1
+    ctx.ob("R-SCOPE", "rule-set rules and top-level rules are both compiled (%d / %d places)" % (n_rs, n_top),
+           n_rs >= 1 and n_top >= 1, key="R-SCOPE:places", where=b["span"])
     # what is ever put into the top-level map: keys that come from a top-level `let` item
     READS = re.compile(r"(Clone>::clone|::clone|HashMap::get|HashMap::contains_key|HashMap::len|HashMap::iter|"
-                       r"HashMap::is_empty|Index>::index|Deref>::deref)$")
+                       r"HashMap::is_empty|Index>::index|Deref>::deref|NFA::add_regex|RightCtxDFAs::new_right_ctx)$")
     bad = []
     n_mut = 0
+    locals_ = b["mir"]["locals"]
     for bi, c, a in calls:
-        if not a or a[0] != B or READS.search(c) or c == "compile_rule_set":
+        if not a or a[0] != B or READS.search(c):
             continue
-        locals_ = b["mir"]["locals"]
         t = sym.blocks[bi]["term"]
         q = t["args"][0].get("move") or t["args"][0].get("copy")
         ty = locals_[q["l"]] if q is not None and not q["p"] else ""
@@ -965,63 +1051,71 @@ def check_rchk(ctx, prog):
         n += 1
         ctx.ob("R-CHK", rule_desc, ok, key="R-CHK:" + key, where=where, detail=detail)
 
-    # 1. unbound variable: Map<Var,Regex>::get -> None diverges (2 sites: add_re, regex_to_range_map)
-    for fn_name in ("regex_to_nfa::add_re", "regex_to_nfa::regex_to_range_map"):
+    # 1. unbound variable (add_re, regex_to_range_map) and 8. unknown built-in: a lookup whose failure
+    #    diverges - `get(..).unwrap_or_else(|| panic!(..))`, `.expect(..)`, `.unwrap()`, `map[key]`, or a
+    #    branch on the lookup's result one side of which panics. The lookup is recognised by what it is
+    #    keyed with (the variable of a `Regex::Var`, the name of a `Regex::Builtin`), wherever it lives.
+    from .rules_thompson import Sym as _Sym, _is_call as _isc
+
+    def failing_lookup(fn_name, variant, what, key):
         b = lex.body(fn_name)
         if b is None:
             site("%s found" % fn_name, "anchor:" + fn_name, False, None)
-            continue
-        blocks = b["mir"]["blocks"]
-        gets = [bi for bi, c, t in cfg.calls_in(blocks)
-                if c == "std::collections::HashMap::get" and "ast::Var" in (t.get("res") or "")]
+            return
+        sym = _Sym(b, {}, crate=lex)
+
+        def keyed(t):
+            return term_has(t, lambda y: isinstance(y, tuple) and len(y) == 3 and y[0] == "path"
+                            and len(y[2]) >= 1 and ("as", variant) in y[2])
         ok = False
-        # `&bindings[var]`: Index::index on the map panics by itself when the key is missing
-        idx = [bi for bi, c, t in cfg.calls_in(blocks)
-               if c and c.endswith("std::ops::Index>::index") and "HashMap<ast::Var" in (t.get("res") or "")
-               or (c and "std::ops::Index" in c and "ast::Var" in (t.get("res") or "") and "HashMap" in (t.get("res") or ""))]
-        if idx:
-            ok = True
-            gets = gets or idx
-        for bi in (gets if not idx else []):
-            # result flows into Option::unwrap_or_else(panic closure) or a match whose None arm diverges
-            nxt = blocks[bi]["term"]["t"]
-            t2 = blocks[nxt]["term"] if nxt >= 0 else None
-            if t2 and t2["k"] == "call":
-                c2 = norm_path(t2.get("resp") or t2["f"].get("path"))
-                if c2 == "std::option::Option::unwrap_or_else":
-                    clos = [x for x in lex.by_norm if x.startswith(norm_path(b["path"]) + "::{closure")]
-                    for cn in clos:
-                        cb = lex.body(cn)
-                        if diverges_after(cb["mir"]["blocks"], 0):
-                            ok = True
-                elif c2 in ("std::option::Option::unwrap", "std::option::Option::expect"):
-                    ok = True
-            sw, sb = switch_after_call(blocks, bi)
-            if sw is not None:
-                for val, tgt in sw["arms"] + [[None, sw["else"]]]:
-                    if val == 0 and diverges_after(blocks, tgt):
+        n_lookups = 0
+        for bi, c, a in sym.all_calls():
+            if c.endswith("Option::unwrap_or_else") and len(a) == 2 and keyed(a[0]):
+                n_lookups += 1
+                clo = a[1]
+                if clo[0] == "agg" and clo[1].startswith("closure:"):
+                    cb = lex.body(norm_path(clo[1][len("closure:"):]))
+                    if cb is not None and diverges_after(cb["mir"]["blocks"], 0):
                         ok = True
-        site("%s: a variable that is not bound is rejected (lookup failure diverges)" % fn_name,
-             "unbound:" + fn_name, bool(gets) and ok, b["span"],
-             {"lookups": len(gets)})
+            elif (c.endswith("Option::expect") or c.endswith("Option::unwrap")) and a and keyed(a[0]):
+                n_lookups += 1
+                ok = True
+            elif "std::ops::Index" in c and len(a) == 2 and keyed(a[1]):
+                n_lookups += 1
+                ok = True
+        gd, _s = guarded_divergences(lex, b)
+        for term, bi in gd:
+            if keyed(term):
+                n_lookups += 1
+                ok = True
+        site("%s: %s is rejected (the lookup's failure diverges)" % (fn_name, what), key, ok, b["span"],
+             {"lookups": n_lookups})
+    for fn_name in ("regex_to_nfa::add_re", "regex_to_nfa::regex_to_range_map"):
+        failing_lookup(fn_name, "Var", "a variable that is not bound", "unbound:" + fn_name)
+    failing_lookup("regex_to_nfa::add_re", "Builtin", "an unknown built-in name", "builtin")
     # 2. duplicate variable: a branch on a lookup / insertion into the bindings map keyed by the
     #    binding's variable leads to a panic (entry -> Occupied, contains_key, get, insert's result)
     MAP_TESTS = ("HashMap::entry", "HashMap::contains_key", "HashMap::get", "HashMap::insert")
-    for fn_name in ("lexer", "compile_rule_set"):
-        b = lex.body(fn_name)
-        if b is None:
-            site("%s found" % fn_name, "anchor:" + fn_name, False, None)
-            continue
-        gd, sym_ = guarded_divergences(lex, b)
+    sa = scope_analysis(lex)
+    if sa is None or len(sa["roots"]) != 1:
+        site("lexer: the bindings maps are identified", "dupvar:anchor", False, None)
+    else:
+        B = next(iter(sa["roots"]))
+        gd, sym_ = guarded_divergences(lex, sa["body"])
+        seen_scopes = set()
 
-        def keyed_by_binding(t):
-            return isinstance(t, tuple) and len(t) == 4 and t[0] == "call" and \
-                any(t[1].endswith(m) for m in MAP_TESTS) and len(t[3]) >= 2 and \
-                term_has(t[3][1], lambda y: y == ("as", "Binding"))
-        hits = [bi for term, bi in gd if term_has(term, keyed_by_binding)]
-        site("%s: a variable defined twice is rejected (the test of the bindings map for the binding's "
-             "variable has a panicking branch)" % fn_name,
-             "dupvar:" + fn_name, bool(hits), b["span"], {"guarded panics": len(gd)})
+        def grab(t):
+            if isinstance(t, tuple) and len(t) == 4 and t[0] == "call" and \
+                    any(t[1].endswith(m) for m in MAP_TESTS) and len(t[3]) >= 2 and \
+                    term_has(t[3][1], lambda y: y == ("as", "Binding")):
+                seen_scopes.add("top" if t[3][0] == B else "rule set")
+            return False
+        for term, bi in gd:
+            term_has(term, grab)
+        for scope in ("top", "rule set"):
+            site("lexer: a variable defined twice %s is rejected (the test of the bindings map for the binding's "
+                 "variable has a panicking branch)" % ("at top level" if scope == "top" else "inside a rule set"),
+                 "dupvar:" + scope, scope in seen_scopes, sa["body"]["span"], {"guarded panics": len(gd)})
     b = lex.body("lexer")
     if b is not None:
         blocks = b["mir"]["blocks"]
@@ -1097,18 +1191,6 @@ def check_rchk(ctx, prog):
         tce = [bi for bi, c, t in cfg.calls_in(blocks) if c == "syn::Error::to_compile_error"]
         site("lexer: a syntax error from the parser becomes a compile error", "parse-error",
              bool(tce), b["span"], {"sites": len(tce)})
-    # 8. unknown builtin
-    gb = lex.body("regex_to_nfa::get_builtin_regex")
-    ok8 = False
-    if gb is not None:
-        for cn in [x for x in lex.by_norm if x.startswith("regex_to_nfa::get_builtin_regex::{closure")]:
-            cb = lex.body(cn)
-            if diverges_after(cb["mir"]["blocks"], 0):
-                ok8 = True
-        uses = [c for _, c, t in cfg.calls_in(gb["mir"]["blocks"])]
-        ok8 = ok8 and "std::option::Option::unwrap_or_else" in uses
-    site("get_builtin_regex: an unknown built-in name is rejected", "builtin", ok8,
-         gb["span"] if gb else None)
     # 9. operands of `#`: arms of regex_to_range_map for non-class nodes diverge
     rm = lex.body("regex_to_nfa::regex_to_range_map")
     if rm is not None:
